@@ -156,14 +156,19 @@ class WCur(object):
     def execute(self, sql, *args):
         after = self._p.tick('execute', sql)
         self._raw.execute(sql, *args)
-        after()
+        self._after(after)
         return self
 
     def executemany(self, sql, *args):
         after = self._p.tick('executemany', sql)
         self._raw.executemany(sql, *args)
-        after()
+        self._after(after)
         return self
+
+    def _after(self, after):
+        if after is not _nothing:
+            self._raw.close()          # the driver resets a statement whose execution it reports as failed (no half-read SELECT stays behind)
+            after()
 
     def fetchone(self):
         self._p.gate('fetchone'); return self._raw.fetchone()
@@ -201,7 +206,7 @@ class WCon(object):
     def execute(self, sql, *args):             # sqlite3.Connection.execute shortcut (PRAGMAs in SQLitePool._connect)
         after = self._p.tick('execute', sql)
         cur = WCur(self, self._raw.execute(sql, *args))
-        after()
+        cur._after(after)
         return cur
 
     def commit(self):
@@ -579,14 +584,14 @@ def _scenario_body(name, faults, kinds, mode, warm):
             with db_session(**MODE_KW[mode]):
                 body(E, mark)
     except Exception as e:
-        session_exc = e
+        session_exc = '%s: %s' % (type(e).__name__, e)       # text only: a kept traceback would keep pony's frames (and cursors) alive
     plan.armed = False
     LAST['exc'] = session_exc
     if plan.n > KMAX:
         why.append('harness bound: %d statements in the faulted session > KMAX' % plan.n)
         return False
     if not plan.hit and session_exc is not None:
-        why.append('A4: no fault was injected but the session raised %s: %s' % (type(session_exc).__name__, session_exc))
+        why.append('A4: no fault was injected but the session raised %s' % session_exc)
         return False
     if plan.dead:
         # the process is gone: nothing else runs, its connection disappears without a commit
